@@ -377,6 +377,27 @@ def object_container_programs():
                 yield ["EMPTY_LIST"] + mk + mu + ["APPEND"] + tl
 
 
+# ------------------------------------------------------------------ opcodes fickling has no model for
+def unmodelled_op_programs():
+    """Programs the reference VM accepts that use an opcode fickling has no class / no run() for (PERSID,
+    EXT1/2/4 with a registered code, FLOAT, BYTEARRAY8).  C03: such a pickle must be REFUSED, or -- should
+    fickling learn the opcode -- decompiled with every import / call / persistent load the VM performs."""
+    from harness import asm as _asm
+    from harness.vmlib import EXT_CODE
+    call = [("GLOBAL", ("verif_sink", "record")), ("BININT1", 7), "TUPLE1", "REDUCE"]
+    pers = ("PERSID", _asm.RawArg(b"os.getcwd\n"))
+    yield [pers, "STOP"]
+    yield call + [pers, "TUPLE2", "STOP"]
+    yield [pers, ("BINPUT", 0), "POP"] + call + ["STOP"]
+    for ext in ("EXT1", "EXT2", "EXT4"):
+        yield [(ext, EXT_CODE), "STOP"]
+        yield [(ext, EXT_CODE), ("BININT1", 1), "TUPLE1", "REDUCE", "STOP"]
+        yield call + ["POP", (ext, EXT_CODE), "EMPTY_TUPLE", "REDUCE", "STOP"]
+    yield [("FLOAT", 1.5), "STOP"]
+    yield call + [("FLOAT", 2.5), "TUPLE2", "STOP"]
+    yield [("PROTO", 5), ("BYTEARRAY8", b"ba"), "STOP"]
+
+
 # ------------------------------------------------------------------ natural values
 class Inst:
     def __init__(self, a=1):
